@@ -24,7 +24,8 @@ Record case_C12 := mkCase {
   k_lcs : list N;                           (* msg.lifecycle per message (canonical numbering) *)
   k_known : list bool;                      (* lifecycle present in the evmap table, per message *)
   k_keeps : list (list bool);               (* keep_lifecycle(entry, msg.ecu, lifecycle of msg): [entry][message] *)
-  k_search : bool                           (* a `stream_search` with the set was run over the websocket (all-pass stream) *)
+  k_search : bool;                          (* a `stream_search` with the set was run over the websocket (all-pass stream) *)
+  k_rounds_chunk : N                        (* max_chunk_size of the server-loop drive of process_stream_new_msgs *)
 }.
 
 Definition kind_of_N (k : N) : kind :=
@@ -87,6 +88,8 @@ Definition run_C12 (c : case_C12) : otree :=
       T [T (map L (fst psn)); L (snd psn)];
       exp;
       (* process_stream_search_params: the constructor loop (= build), then match_filters over the stream's messages *)
-      if k_search c then T [T (map L (matching_idxs mt sc msgs 0))] else T [] ].
+      if k_search c then T [T (map L (matching_idxs mt sc msgs 0))] else T [];
+      (* server loop: ticks until nothing is pending (at most n + 2) *)
+      (let r := stream_rounds mt (N.to_nat (k_n c) + 2) sc msgs (k_rounds_chunk c) [] 0 in T [T (map L (fst r)); L (snd r)]) ].
 
 Definition agree_C12 : case_C12 -> otree -> bool := agree_det run_C12.
